@@ -11,9 +11,9 @@ CFG = {
             {"prop": "C13", "share": 0.14, "name": "free-race-client-relay", "race": True, "env": RACE_ENV, "workers": 8},
             {"prop": "C12", "share": 0.1, "name": "free-race-client-transactions", "race": True, "env": RACE_ENV, "workers": 8},
         ],
-        "evidence": {"race_detector": "the free-race passes run UDP-listener server-world plans (scripted clients; real client + real server) and the client-world plans "
+        "evidence": {"race_detector": "the free-race passes run the server-world plans (UDP and TCP listeners, TCP relay; scripted clients; real client + real server) and the client-world plans "
                      "(real client against the scripted server: concurrent WriteTo/ReadFrom/Close/transactions) on a -race build in "
-                     "free-running mode: no scheduler steps, no harness locks or counters on library paths, timers as the only network, GOMAXPROCS 4, half of the short gaps between operations collapsed to zero so that calls really coincide; "
+                     "free-running mode: no scheduler steps, no harness locks or counters on library paths (except simnet's own registry lock when a TCP connection is made or closed), timers as the only network, GOMAXPROCS 4, half of the short gaps between operations collapsed to zero so that calls really coincide; "
                      "a report with pion/turn frames kills the worker and is replayed"},
     },
 }
